@@ -116,7 +116,6 @@ pub fn default_guards() -> Vec<String> {
         "failing_multi_row_statement_in_session", // D23
         "update_on_table_with_unique_index",     // D7
         "delete_of_updated_row_in_multi_statement_txn", // D25
-        "null_in_unique_column",                 // F1
         "collision_with_key_of_rolled_back_insert", // U1
         "unique_key_reuse_while_session_open",   // U2
         "arithmetic_update_on_indexed_table",    // D24
